@@ -205,12 +205,26 @@ def post (j : Json) : R Json := do
     pure <| natList (pats.map fun p => pnrCount samples p)
   | _ => throw s!"st.post: unknown kind {kind}"
 
+/-- Gaussian `dm()` / `reduced_dm(modes)` with scripted thewalrus outputs (`psi`: state vector of `len(modes)` modes, `T`: density
+matrix of `len(modes)` modes) -/
+def gaussDm (j : Json) : R Json := do
+  let D ← getNat j "D"
+  let n ← getNat j "n"
+  let modes := getNatListD j "modes"
+  let k := modes.length
+  let psi ← getGArr j "psi"
+  let T ← getGArr j "T"
+  match gaussReducedDm GInt.conj n modes (getBoolD j "pure" false) (tensOfArray D k psi) (tensOfArray D (2 * k) T) with
+  | .error e => pure (jErr e)
+  | .ok (k', t) => pure <| Json.mkObj [("k", jnat k'), ("t", jarr ((arrayOfTens D (2 * k') t).map jGInt))]
+
 def handler (op : String) (j : Json) : Option (R Json) :=
   match op with
   | "st.fock" => some (fock j)
   | "st.gauss" => some (gauss j)
   | "st.bosonic" => some (bosonic j)
   | "st.post" => some (post j)
+  | "st.gaussdm" => some (gaussDm j)
   | _ => none
 
 end SFV.Drv.States
